@@ -172,6 +172,7 @@ uint64_t vrt_fp_ordinal(void);          /* requests seen since arm */
 extern void (*vrt_alloc_hook)(int kind, void *p);
 /* optional: called by vrt_fail() after recording, before leaving the case */
 extern void (*vrt_fail_hook)(void);
+void vrt_lib_release_big(size_t min_bytes);   /* free every live library block >= min_bytes (abandoned huge cases) */
 
 /* misc */
 void vrt_set_mt(int on);               /* allocator table locking for threaded harnesses */
